@@ -18,6 +18,9 @@ def check(run, tier):
     q = tier == "quick"
     run.mc("MC_Twin", "MC_Twin_labware")
     run.mc("MC_Twin", "MC_Twin_distribute")
+    # unbounded integers: the guarded per-well update is inductive for 0 <= vol <= max and monotone w.r.t. the limits
+    run.apalache("LabwareInd", "IndInit", "IndInv", cinit="ConstInit")
+    run.apalache("LabwareInd", "IndInit", "StepOK", cinit="ConstInit")
     if not q:
         run.mc("MC_Twin", "MC_Twin_labware_d2", timeout=3000)
         run.mc("MC_Twin", "MC_Twin_mixed_d4", timeout=3000)
